@@ -42,4 +42,15 @@ For each change deliver, under {wt}/out/<{letters}>/:
   * `meta.json` with keys: "property" ("{pid}"), "mechanism" (the name from the list), "summary" (what the change does), "needs" (what specific input / sequence / interleaving is needed for the violation to manifest), "why_tests_pass" (why the existing suite does not notice), "commands" (what you ran to confirm).
 When finished, leave the worktree source UNMODIFIED (`git checkout -- .` and remove your new test files from tests/ - keep copies only under out/), and reply with a short summary of the changes.
 """
+
+if rnd == "4":
+    head, tail = text.split("Your task: play a careless or unlucky developer.", 1)
+    text = head + f"""Your task: play a careless or unlucky developer. First split the STATEMENT above into its separate CLAUSES (each "and", each comma-separated guarantee, each "never"/"always"/"exactly" is a clause; typically 4-7 of them) and list them (a), (b), (c), ... in your notes. Then produce ONE source change PER CLAUSE (separate patches, each applying on its own to the unmodified worktree) that breaks THAT clause - and, as far as you can manage, only that clause - while the crate still COMPILES and the EXISTING test suite still PASSES (`cargo test --offline` with default features, and with `--features "websocket value-stream"`, must show the same passing tests as before your change; run them before and after). The change may be in ANY file under src/ (not only the ones the property names): look for the helper, constructor, default value, error conversion, Drop impl, builder option, configuration path or rarely-used public entry point through which the clause can be broken without touching the obvious central function. Keep each change small (a few lines) and plausible as an honest refactoring, optimisation or clean-up. IMPORTANT: each change must need something SPECIFIC to manifest - a particular boundary value, option combination, multi-step sequence, interleaving or fault at a particular point - NOT something any ordinary use of the library exposes at once, and not something only reachable with >1 GiB of data or > 30 s of waiting. If for some clause you cannot find such a change after a real attempt, say so and skip it. The change must be in the library source (src/), not in tests, and must not be guarded by cfg(test) or feature tricks.
+
+For each change deliver, under {wt}/out/<a|b|c|...>/:
+  * `patch.diff` - `git diff` of the change against the unmodified worktree (only src/ changes);
+  * a DEMONSTRATION `demo.rs`: a new integration test file (run as `tests/seeded_demo.rs`) that FAILS with the change applied and PASSES without it, deterministically (run each 3 times); it may use only the crate's public API plus the crate's existing dev-dependencies;
+  * `meta.json` with keys: "property" ("{pid}"), "clause" (the clause of the statement it breaks, quoted), "summary" (what the change does), "needs" (what specific input / option / sequence / interleaving is needed for the violation to manifest), "why_tests_pass" (why the existing suite does not notice), "commands" (what you ran to confirm).
+When finished, leave the worktree source UNMODIFIED (`git checkout -- .` and remove your new test files from tests/ - keep copies only under out/), and reply with a short summary of the changes.
+"""
 print(text)
